@@ -3,16 +3,25 @@
 for each /verif/seeded/<name>: scratch worktree of HEAD under /tmp, `git apply patch.diff`, run the
 registered quick check of the property with VERIF_REPO=<worktree>, record whether it reports a
 VIOLATION, remove the worktree and the scratch build. Writes /verif/seeded/RESULTS.md.
-usage: run_seeds.py [name ...]      (default: all; VERIF_SEED picks the seed, default 1)"""
+usage: run_seeds.py [-j N] [name ...]      (default: all, 1 worker; VERIF_SEED picks the seed, default 1)
+A seeded change whose meta.json names other checks under "also_run" (e.g. C02-r6: ["C20"]) is tried with
+those too; it counts as caught when any of them reports a violation."""
 import json, os, re, shutil, subprocess, sys, time, hashlib
+from concurrent.futures import ThreadPoolExecutor
 
 VERIF = os.path.dirname(os.path.dirname(os.path.abspath(__file__)))
 SEEDED = os.path.join(VERIF, "seeded")
-names = sys.argv[1:] or sorted(d for d in os.listdir(SEEDED) if os.path.isdir(os.path.join(SEEDED, d)))
+args = sys.argv[1:]
+jobs = 1
+if args and args[0] == "-j":
+    jobs = int(args[1])
+    args = args[2:]
+names = args or sorted(d for d in os.listdir(SEEDED) if os.path.isdir(os.path.join(SEEDED, d)))
 seed = os.environ.get("VERIF_SEED", "1")
 head = subprocess.run(["git", "-C", "/repo", "rev-parse", "--short", "HEAD"], capture_output=True, text=True).stdout.strip()
-rows = []
-for name in names:
+
+
+def one(name):
     pid = name[:3]
     wt = "/tmp/seedrun_" + name
     subprocess.run(["git", "-C", "/repo", "worktree", "remove", "--force", wt], capture_output=True)
@@ -20,25 +29,46 @@ for name in names:
     subprocess.run(["git", "-C", "/repo", "worktree", "add", "-q", "--detach", wt, "HEAD"], check=True)
     patch = os.path.join(SEEDED, name, "patch.diff")
     ap = subprocess.run(["git", "-C", wt, "apply", "--3way", patch], capture_output=True, text=True)
-    status, sigs, wall = "", [], 0
+    status, sigs, wall, by = "", [], 0, []
     if ap.returncode != 0:
         status = "patch does not apply to %s: %s" % (head, ap.stderr.strip().splitlines()[-1] if ap.stderr.strip() else "?")
     else:
+        try:
+            also = json.load(open(os.path.join(SEEDED, name, "meta.json"))).get("also_run", [])
+        except Exception:
+            also = []
         env = dict(os.environ, VERIF_REPO=wt)
         t0 = time.time()
-        p = subprocess.run([os.path.join(VERIF, "check"), pid, "--tier", "quick", "--seed", seed], env=env, capture_output=True, text=True)
+        last = []
+        for cid in [pid] + [c for c in also if c != pid]:
+            p = subprocess.run([os.path.join(VERIF, "check"), cid, "--tier", "quick", "--seed", seed], env=env, capture_output=True, text=True)
+            found = re.findall(r"^VIOLATION property=\S+ replay=\S*/([^/]+)\.json", p.stdout, re.M)
+            if found:
+                by.append("%s: %d" % (cid, len(found)))
+                sigs += found
+            last = [l for l in p.stdout.splitlines() if l.startswith("[" + cid)] or ["rc=%d" % p.returncode]
         wall = time.time() - t0
-        sigs = re.findall(r"^VIOLATION property=\S+ replay=\S*/([^/]+)\.json", p.stdout, re.M)
-        last = [l for l in p.stdout.splitlines() if l.startswith("[" + pid)]
-        status = "CAUGHT (%d signatures)" % len(sigs) if sigs else "NOT CAUGHT: " + (last[-1] if last else "rc=%d" % p.returncode)
-    rows.append((name, status, sigs[:3], wall))
-    print("%-8s %s %s %.0fs" % (name, status, sigs[:2], wall), flush=True)
+        status = ("CAUGHT (%s signatures)" % ", ".join(by)) if sigs else "NOT CAUGHT: " + last[-1]
+        try:
+            if json.load(open(os.path.join(SEEDED, name, "meta.json"))).get("caught_by", "").startswith("NOT A VIOLATION"):
+                status = ("silent, as it should be (the change does not break the property as stated): " + last[-1]) if not sigs else "REPORTED although the change does not break the property: " + ", ".join(by)
+        except Exception:
+            pass
     subprocess.run(["git", "-C", "/repo", "worktree", "remove", "--force", wt], capture_output=True)
     shutil.rmtree(wt, ignore_errors=True)
     shutil.rmtree("/tmp/verif_alt_" + hashlib.sha1(wt.encode()).hexdigest()[:10], ignore_errors=True)
+    print("%-8s %s %s %.0fs" % (name, status, sigs[:2], wall), flush=True)
+    return (name, status, sigs[:3], wall)
+
+
+with ThreadPoolExecutor(max_workers=jobs) as ex:
+    rows = list(ex.map(one, names))
 subprocess.run(["git", "-C", "/repo", "worktree", "prune"])
-if not sys.argv[1:]:
+if not args:
     with open(os.path.join(SEEDED, "RESULTS.md"), "w") as f:
         f.write("# Seeded changes re-applied to /repo HEAD %s, quick tier, seed %s\n\n| seeded change | verdict of ./check | first signatures | wall |\n|---|---|---|---|\n" % (head, seed))
         for name, status, sigs, wall in rows:
             f.write("| %s | %s | %s | %.0f s |\n" % (name, status, "; ".join("`%s`" % s for s in sigs), wall))
+        n = sum(1 for r in rows if r[1].startswith("CAUGHT"))
+        k = sum(1 for r in rows if r[1].startswith("silent, as it should"))
+        f.write("\n%d of %d seeded changes are reported by the quick tier on this HEAD; %d that do not break their property stay silent.\n" % (n, len(rows) - k, k))
